@@ -21,7 +21,8 @@ MANIFEST = {
             "empty-preserving text helper wherever the domain contains '', item tags agree, strip flags); plus decide-obligations "
             "that the reader's tag dispatch inverts the writer's tags, that every class reaches its own serialiser through "
             "object_to_xml_element's isinstance chain and its constructor through read_aas_xml_element. Tie: differential run of "
-            "writer output (after a real serialise/parse cycle through lxml) and strict reader result vs. the model.",
+            "writer output (after a real serialise/parse cycle through lxml) and strict reader result vs. the model."
+            " Also regenerated and proved: the store-level sorting of the XML writer is an isinstance chain, so instances of application-defined subclasses are sorted like their metamodel class (c04_class_dispatch, c04_subclass_instances_sorted_alike).",
     "note": "lxml/libxml2 parse∘serialise modelled as identity on leaf text except '' ≡ no text (assumption, re-checked on stress pools "
             "every run); leaf lexical forms are C06's; translator + spec table trusted, validated by the tie",
     "technique": "Lean 4 proof: generic codec round-trip theorem + kernel-decided well-formedness of tables regenerated from source; "
@@ -44,7 +45,8 @@ def translate(ctx: C.Ctx) -> List[str]:
     data = X.build(C.REPO)
     c03.write_if_changed(GEN_LEAN, X.emit_lean(data))
     c03.write_if_changed(GEN_JSON, json.dumps(data, indent=1))
-    return [f"unrecognised source construct: {u}" for u in data["unrecognised"]] + [f"table problem: {p}" for p in data["problems"]]
+    return [f"unrecognised source construct: {u}" for u in data["unrecognised"]] + [f"table problem: {p}" for p in data["problems"]] \
+        + c03.translate_dispatch(ctx)
 
 
 def constructable(obj):
